@@ -326,7 +326,6 @@ def run(R):
             got2 = outcome_of(lambda: precomputed_io.get_IO_for_new_dataset(info2, reopen_same(), overwrite_info=ow))
             R.count("reinit:" + ("overwrite" if ow else "no-overwrite") + ":" + got2[0])
             if got2[0] == "ok":
-                written_before = set(last)
                 if ow:
                     last.clear()
                 pio_b = got2[1]
@@ -334,11 +333,10 @@ def run(R):
                 c2 = tuple(t for s_, k_ in zip(sc2["size"], sc2["chunk_sizes"][0]) for t in (0, min(k_, s_)))
                 a2 = np.arange(nch * (c2[5] - c2[4]) * (c2[3] - c2[2]) * (c2[1] - c2[0]), dtype="float64")
                 a2 = (a2 * 0.5 + 0.5).astype(info2["data_type"]).reshape(nch, c2[5] - c2[4], c2[3] - c2[2], c2[1] - c2[0])
-                # (an overwriting initialisation with another encoding may change the stored form of a chunk,
-                #  plain <-> .gz; a chunk of the OLD dataset at this position is then a leftover of another
-                #  dataset generation, which C03 does not speak about: only positions never written before)
-                fresh_pos = (sc2["key"], c2) not in written_before
-                w2 = outcome_of(lambda: pio_b.write_chunk(a2, sc2["key"], c2)) if fresh_pos else ["skipped"]
+                # (an overwriting initialisation with another encoding changes the stored form of a chunk,
+                #  plain <-> .gz: since /repo 69c193f the file accessor drops the other form, so positions that
+                #  hold a chunk of the old dataset are included)
+                w2 = outcome_of(lambda: pio_b.write_chunk(a2, sc2["key"], c2))
                 if w2[0] == "ok":
                     last.pop((sc2["key"], c2), None)
                     r2 = outcome_of(lambda: precomputed_io.get_IO_for_existing_dataset(reopen()).read_chunk(sc2["key"], c2))
